@@ -511,6 +511,26 @@ def run(R):
         eff = writers_of(b, 0)
         rows = decision_rows(b, 0, eff)
         table, default = {}, None
+        # the table as data: REASON_CODES.iter().find(|(r, _)| *r == reason).map_or(Code::Unknown, |(_, c)| *c)
+        for cons_, path_ in mirlib.path_rows(b):
+            tl_ = table_lookup(tonic, mirlib.simplify(b.ret_on_path(path_)))
+            if tl_ is not None and tl_['kind'] == 'find' and tl_['value'] is not None:
+                h2num_ = {v_: int(k_) for k_, v_ in h2['names'].items()}
+                for e_ in tl_['entries']:
+                    kt_ = tl_['key'](e_)
+                    cds_ = [str(x_[1]).rsplit('::', 1)[-1] for x_ in find_terms(kt_, lambda y: isinstance(y, tuple) and y and y[0] == 'constdef' and 'Reason::' in str(y[1]))]
+                    ints_ = [const_val(x_) for x_ in find_terms(kt_, lambda y: isinstance(y, tuple) and y and y[0] == 'const' and isinstance(y[1], int) and not isinstance(y[1], bool))]
+                    num_ = h2num_.get(cds_[0]) if cds_ and cds_[0] in h2num_ else (ints_[0] if len(ints_) == 1 else None)
+                    cv_ = strip_refs(tl_['value'](e_))
+                    if num_ is None or not (cv_ and cv_[0] == 'agg'):
+                        R.bad('C04.R7', 'h2:table-entry', site(b), 'unreadable table entry %s' % show(e_)[:80], kind='UNRECOGNISED')
+                        continue
+                    table.setdefault(num_, cv_[1].get('variant'))   # find() returns the first match
+                dv_ = strip_refs(mirlib.simplify(tl_['default'])) if tl_['default'] is not None else None
+                default = dv_[1].get('variant') if dv_ and dv_[0] == 'agg' else None
+                R.check(default == 'Unknown', 'C04.R7', 'h2:default', site(b), 'a reason not in the table yields %r' % default)
+                R.check(term_contains(resolve_env(tonic, b, tl_['probe']), lambda y: is_call(y, name='reason')) or term_contains(tl_['probe'], lambda y: y and y[0] == 'field' and y[1] in (('env',), ('deref', ('env',)))), 'C04.R7', 'h2:probe', site(b), 'the table is searched for the error\'s reason')
+                rows = [(c2_, bb2_) for c2_, bb2_ in rows if variant_of(block_writes(b, bb2_, 0)) is not None]
         for cons, bb in rows:
             d = cons_dict(cons)
             var = variant_of(block_writes(b, bb, 0))
